@@ -137,6 +137,13 @@ static void c11One(W& w, const tbl::Cls<T>& c, size_t fi, int bg, int extra, uin
             tp = &static_cast<T&>(holder.getPayload());
         }
     T& t = *tp;
+    // every getter is called on THIS object before the write (an observation is an operation too)
+    {
+        uint64_t sink = 0;
+        for (auto& x : c.fields)
+            sink += x.get(t);
+        asm volatile("" : : "r"(sink));
+    }
     f.set(t, v);
     w.add(mc::C_TRANS, 1);
     uint64_t got = f.get(t);
